@@ -160,6 +160,20 @@ impl<'r> Gen<'r> {
 
 	fn string(&mut self) -> String {
 		let r = &mut *self.rng;
+		if self.allow_big && r.below(40) == 0 {
+			// a long string with a multi-byte character sitting across a 16 KiB boundary of its bytes
+			let m = 1 + r.usize_below(3);
+			let j = r.usize_below(4);
+			let mut s = String::with_capacity(16384 * m + 128);
+			for i in 0..16384 * m - j {
+				s.push((b'a' + (i % 26) as u8) as char);
+			}
+			s.push(*r.pick(&['é', '€', '😀', '\u{10FFFF}']));
+			for _ in 0..r.usize_below(100) {
+				s.push(*r.pick(&['x', 'é', '€', '😀']));
+			}
+			return s;
+		}
 		let n = match r.below(10) {
 			0 => 0,
 			1..=6 => r.usize_below(8),
